@@ -138,6 +138,14 @@ add("unsync_cache.rs", "k1_is_expired_wo_iff_deadline_passed", {"C05", "C08"}, "
 add("unsync_cache.rs", "k1_is_expired_ao_iff_deadline_passed", {"C06", "C08"}, "quick", 5, "is_expired_entry_ao <=> la + tti <= now", "all instants < 2^36 s, tti <= 1000 y, ns resolution")
 add("unsync_cache.rs", "k1_is_expired_entry_reads_the_entrys_own_nodes", {"C05", "C06", "C16", "C08"}, "quick", 60, "is_expired_entry(entry) (iteration filter) <=> that entry's deadlines", "n=2, symbolic times")
 add("common.rs", "raw_instant_layout_matches_std", {"C05", "C06"}, "quick", 2, "harness assumption: layout of std::time::Instant", "all instants")
+for _n, _t in ((1, "quick"), (2, "quick"), (3, "quick")):
+    add("unsync_cache.rs", f"evict_lru_lemma_n{_n}", {"C12", "C04", "C10", "C08", "C11"}, _t, 20, "evict_lru_entries for ALL weights and capacities: exactly the shortest LRU prefix covering the excess",
+        f"n={_n} residents, weights (u32) and capacity (u64) symbolic", quick={"C12", "C04"})
+add("unsync_cache.rs", "handle_update_lemma_n2", {"C10", "C04", "C12", "C01", "C08"}, "quick", 20, "handle_update for ALL old/new weights", "n=2, u32 weights symbolic", quick={"C10", "C04"})
+for _n, _t in ((1, "quick"), (2, "quick"), (3, "quick")):
+    add("unsync_cache.rs", f"admit_lemma_n{_n}", {"C13", "C12", "C10", "C08"}, _t, 20, "Cache::admit for ALL weights, candidate weights and sketch contents: Admitted <=> shortest covering LRU prefix exists and is strictly less popular; victims = that prefix",
+        f"n={_n} residents, weights/candidate/sketch symbolic (u32 full range)", quick={"C13", "C12"},
+        required=("rejected on popularity", "rejected: no covering prefix", "admitted over all residents"))
 add("unsync_cache.rs", "unsync_twin_must_fail", {"C01", "C03", "C04", "C05", "C06", "C07", "C08", "C10", "C12", "C13", "C15", "C16"}, "quick", 60,
     "vacuity twin of the unsync family", "n=2", expect_fail=True)
 
@@ -260,6 +268,9 @@ add("housekeeper.rs", "full_queue_always_triggers_maintenance", {"C09", "C08"}, 
 add("sync_cache.rs", "schedule_write_op_on_a_full_queue_runs_maintenance_and_returns", {"C09", "C08"}, "quick", 60, "schedule_write_op with a FULL queue: runs maintenance once, enqueues, never sleeps", "model queue capacity 2; draining InnerSync")
 add("sync_cache.rs", "schedule_write_op_with_room_enqueues_once", {"C09", "C08"}, "quick", 60, "schedule_write_op with room: flag free or busy", "model queue capacity 2")
 
+for _n in (1, 2):
+    add("sync_base_cache.rs", f"s_admit_lemma_n{_n}", {"C13", "C12", "C08"}, "quick", 25, "sync Inner::admit for ALL weights / candidate weights / sketch contents (decision only; read-only)",
+        f"n={_n} admitted residents, u32 weights symbolic", required=("rejected on popularity", "rejected: no covering prefix", "admitted over all residents"))
 add("sync_base_cache.rs", "s_eviction_counters_never_overflow", {"C10", "C08"}, "quick", 2, "EvictionCounters saturating arithmetic", "all u64 totals, u32 weights")
 add("sync_cache.rs", "invalidate_of_a_pending_insert_queues_its_removal", {"C07", "C11", "C10"}, "quick", 60, "Cache::invalidate of a key whose Upsert is still queued", "n=1 admitted + 1 pending; model queue 4", quick={"C07", "C11", "C10"})
 add("sync_builder.rs", "sync_policy_reports_exactly_the_knobs", {"C17"}, "quick", 100, "sync builder: every knob combination -> policy()", "all capacities, durations <= 1000 y")
